@@ -1,0 +1,12 @@
+//go:build verif
+
+// Contracts for package gate, read as text by /verif/engine (govc); no code.
+
+package gate
+
+//@ mode bv
+
+// register dump: formatted logging only (ASSUMED, as for kfmt.Printf)
+//@ func (r *Registers) DumpTo(w io.Writer)
+//@   trusted
+//@   modifies kfmt.outLen, kfmt.out, elems(uint8)
